@@ -211,7 +211,7 @@ pub fn case_crash(scratch: &Path, meta: usize, id: &str, seed: u64, len: usize, 
                 }
             }
             OsOp::Create(_) | OsOp::SetLen(_, _) | OsOp::EnsureLen(_, _) | OsOp::Unlink(_) => points.push((k, 0, 2)),
-            OsOp::Sync => {}
+            OsOp::SyncFile(_) | OsOp::SyncDir => {}
         }
     }
     points.push((os.len(), 0, 0));
@@ -230,13 +230,10 @@ pub fn case_crash(scratch: &Path, meta: usize, id: &str, seed: u64, len: usize, 
     }
     // power-loss variants: the stable image is the prefix of the OS operations up to the last
     // fsync before the crash instant (ordered persistence); class 3 carries the crash instant
-    let mut power: Vec<(usize, usize, usize)> = Vec::new(); // (prefix kept, crash instant, 0)
+    let mut power: Vec<(usize, usize, usize)> = Vec::new(); // (prefix = crash instant, crash instant, 0)
     for (k, _, _) in chosen.clone() {
-        if rng.chance(1, 2) {
-            let kept = os[..k.min(os.len())].iter().rposition(|o| matches!(o, OsOp::Sync)).map(|i| i + 1).unwrap_or(0);
-            if kept < k {
-                power.push((kept, k, 0));
-            }
+        if rng.chance(1, 2) && k > 0 {
+            power.push((k, k, 0));
         }
     }
     power.sort();
@@ -289,6 +286,13 @@ pub fn case_crash(scratch: &Path, meta: usize, id: &str, seed: u64, len: usize, 
         if cut > 0 {
             apply_os(&mut img, &os[k], Some(cut));
         }
+        let (mut pdrop, mut pzero) = (Vec::new(), Vec::new());
+        if class == 3 {
+            let (pimg, d, z) = power_loss_image(&os, instant);
+            img = pimg;
+            pdrop = d;
+            pzero = z;
+        }
         let img_vec: Vec<(u64, Vec<u8>)> = img.iter().map(|(f, c)| (*f, c.clone())).collect();
         let mut side = Runner::new(scratch.join(format!("{}-side", id)), meta);
         side.prefix = "c:";
@@ -296,14 +300,14 @@ pub fn case_crash(scratch: &Path, meta: usize, id: &str, seed: u64, len: usize, 
         write_image(&side.real.dir, &img_vec);
         let (oc, evs) = side.real.open(Pol::AlwaysFlush, None);
         // the `crash` line is a main-line op for the model driver
-        let crash_op = Op::Crash { k, cut, pol: Pol::AlwaysFlush, instant: if class == 3 { Some(instant) } else { None } };
+        let crash_op = Op::Crash { k, cut, pol: Pol::AlwaysFlush, instant: if class == 3 { Some(instant) } else { None }, drop: pdrop, zero: pzero };
         r.ops.push((false, crash_op.clone()));
         r.annot.push(format!("{} order={}", crash_op.line(), gc_order(&evs)));
         r.out.push(dir_line(&img_vec));
         r.out.push(oc.line());
         r.stats.inc("crash.points");
         r.stats.inc(match class {
-            3 => "crash.class.power_loss_at_last_fsync",
+            3 => "crash.class.power_loss",
             2 => "crash.class.file_create_remove_window",
             1 => "crash.class.inside_write",
             _ => "crash.class.op_boundary",
@@ -317,7 +321,7 @@ pub fn case_crash(scratch: &Path, meta: usize, id: &str, seed: u64, len: usize, 
         let _ = calls.iter().filter(|c| c.flushed).count();
         let hi = (completed + 1).min(calls.len());
         let ctx = if power_loss {
-            format!("power loss after {} OS ops, stable image = the {} operations up to the last fsync (policy {}, calls completed {}, fsync-persisted {}, started {})", instant, k, pol.tok(), completed, lo, hi)
+            format!("power loss after {} OS ops, stable image = per file the content at its last fdatasync, files whose creation was directory-fsynced (policy {}, calls completed {}, fsync-persisted {}, started {})", instant, pol.tok(), completed, lo, hi)
         } else {
             format!("crash after {} OS ops + {} bytes (policy {}, calls completed {}, persisted {}, started {})", k, cut, pol.tok(), completed, lo, hi)
         };
